@@ -84,7 +84,7 @@ def make_env(body, idxpos, proofpos, idx, L, walking=None, walk_val=None):
     return env
 
 
-DOMAIN = [(idx, L) for L in range(0, 6) for idx in range(0, 2 ** (L + 1) + 3)]
+DOMAIN = [(idx, L) for L in range(0, 6) for idx in list(range(0, 2 ** (L + 1) + 3)) + [2 ** 32, 2 ** 32 + 1, 2 ** 32 + 2 ** L - 1, 2 ** 40 + 3, 2 ** 63, 2 ** 64 - 1]]
 
 
 def index_domain_wrong(b, prog, walking, div_bb, idxpos, proofpos):
@@ -132,7 +132,12 @@ def walker_accepts(b, prog, walking, div_bb, idxpos, proofpos):
             for (a, where) in rel:
                 wv = (idx >> L) if where == "post" else idx
                 env = make_env(b, idxpos, proofpos, idx, L, walking, wv)
-                if eval_atom(a[0], a[1], env) != a[2]:
+                try:
+                    if eval_atom(a[0], a[1], env) != a[2]:
+                        ok = False
+                        break
+                except Overflow:
+                    # the condition itself cannot be evaluated for this (index, len) (it would panic / is behind another test): not a way to accept
                     ok = False
                     break
             res = res or ok
@@ -157,7 +162,18 @@ def verdict_accepts(cb, prog, wnames, idxpos, proofpos):
 
     def acc(idx, L):
         env = make_env(cb, idxpos, proofpos, idx, L)
-        fixed = {i: eval_atom(terms[i][0], terms[i][1], env) for i in idx_terms}
+        fixed = {}
+        for i, t in enumerate(terms):
+            if not (isinstance(t, tuple) and t and t[0] in ("eq", "lt", "is_some", "bool")):
+                continue
+            try:
+                fixed[i] = eval_atom(t[0], t[1], env)
+            except Overflow:
+                pass        # only evaluated behind another condition (short circuit): leave it free for this valuation
+            except Unknown:
+                if i in idx_terms:
+                    raise   # an index condition we cannot evaluate: exactness is not decided
+                # a condition that does not depend on (index, len) alone (hash equality ..): free
         return any(v for asg, v in table.items() if all(asg[i] == fv for i, fv in fixed.items()))
     return acc, len(idx_terms)
 
